@@ -170,6 +170,10 @@ def _other_gate(ck, p, f, cfg, pv, rule, key, bi, t, what):
         succs = f.succs(sb)
         into = [x for x in succs if cfg.dominates(x, bi) and len(cfg.pred[x]) == 1]
         if into and len(into) < len(set(succs)):
+            # the loop's own `match iter.next()` is not a per-rule test
+            srcs = [o for o in flatten(pv.trace_operand(tt["discr"]))]
+            if srcs and all((o[0] == "discr" and any(x[0] == "call" and method_of(x) == "next" for x in flatten(o[1]))) or (o[0] == "call" and method_of(o) == "next") for o in srcs):
+                continue
             gating.append((sb, tt))
     if not gating:
         ck.refuted(rule, key, f.loc(t["ln"]), "%s call is not behind any per-rule test inside its loop: a switched-off rule still runs" % what)
